@@ -33,6 +33,10 @@ pub enum Case {
     /// the tanh-sinh table as `integrate` consumes it on [-1,1]: an instrumented integrand whose level values never
     /// settle records every abscissa - the centre, then every pair +x, -x of every level, whatever the tolerance
     ConsumedDeNodes { tol_exp: i32 },
+    /// the Gauss-Legendre rules as consumed on an interval only `ulps` units in the last place wide at `mid`: the mapped
+    /// nodes coincide, but every one of the n nodes of rule n is still evaluated and weighted (a constant integrates to
+    /// constant x width, n(n+1)/2 evaluations over the whole sequence)
+    NarrowLegendre { mid: f64, ulps: u32 },
     /// one tanh-sinh pair as consumed: the integrand is `value` at the single evaluation (level, index, side) and 0
     /// elsewhere; the result must be what the documented loop gives with the table weight applied to that value
     ConsumedDeWeight { level: usize, j: usize, neg: bool, big: u8, tol_exp: i32 },
@@ -407,6 +411,57 @@ pub fn run_case(case: &Case) -> Outcome {
             }
             o.pass()
         }
+        Case::NarrowLegendre { mid, ulps } => {
+            o.label("consumed-legendre-narrow-interval");
+            o.nontrivial = true;
+            let a = *mid;
+            let mut b = a;
+            for _ in 0..*ulps {
+                b = f64::from_bits(if b > 0.0 { b.to_bits() + 1 } else { b.to_bits() - 1 });
+            }
+            if !(b > a) {
+                return o.discard("degenerate interval");
+            }
+            let width = b - a;
+            // (i) a constant: every rule gives constant x width, the second rule already agrees with the first
+            let res = guard(|| bi::integrate_gaussian::<f64, _>(a, b, |_x| 3.0, 1e-3 * width));
+            match res {
+                Ok(Ok(v)) => {
+                    if !((v - 3.0 * width).abs() <= 1e-9 * 3.0 * width) {
+                        return o.fail(format!("integrate_gaussian of the constant 3 over [{a:e}, {a:e} + {ulps} ulp] = {v:e}; width x 3 = {:e}", 3.0 * width));
+                    }
+                }
+                Ok(Err(e)) => return o.fail(format!("integrate_gaussian of a constant over a {ulps}-ulp interval returned Err({e})")),
+                Err(c) => return o.fail(format!("{c:?}")),
+            }
+            // (ii) never-converging level values: all rules of the sequence, n evaluations each, all inside [a, b]
+            let rows = table(Family::Legendre);
+            let total: usize = (1..=rows.len()).sum();
+            let mut xs: Vec<f64> = vec![];
+            let res = guard(|| {
+                bi::integrate_gaussian::<f64, _>(a, b, |x| {
+                    let k = rule_of_call(xs.len());
+                    xs.push(x);
+                    if k % 2 == 0 {
+                        1.0
+                    } else {
+                        0.0
+                    }
+                }, 1e-3 * width)
+            });
+            match res {
+                Ok(Err(_)) => {}
+                Ok(Ok(v)) => return o.fail(format!("integrate_gaussian: alternating rule values over a {ulps}-ulp interval returned Ok({v:e})")),
+                Err(c) => return o.fail(format!("{c:?}")),
+            }
+            if xs.len() != total {
+                return o.fail(format!("integrate_gaussian over an interval {ulps} ulp wide at {a:e} evaluated the integrand {} times while walking through all {} rules; rules of 1, 2, ..., {} points need {total}", xs.len(), rows.len(), rows.len()));
+            }
+            if let Some(x) = xs.iter().find(|x| !(**x >= a && **x <= b)) {
+                return o.fail(format!("integrate_gaussian evaluated the integrand at {x:e}, outside [{a:e}, {b:e}]"));
+            }
+            o.pass()
+        }
         Case::ConsumedDeNodes { tol_exp } => {
             o.label("consumed-tanh-sinh-nodes");
             o.nontrivial = true;
@@ -589,6 +644,11 @@ pub fn run(opts: &Opts) -> i32 {
             }
         }
     }
+    for mid in [1.7e9, 1.7, -0.3, 1.7e-3, 1e-300, -5e4] {
+        for ulps in [1u32, 2, 3, 8, 20, 200] {
+            spec.enumerated.push(Case::NarrowLegendre { mid, ulps });
+        }
+    }
     // the tanh-sinh table as consumed by `integrate`
     for tol_exp in [-12, -8, -6, -3, -1, 1, 3] {
         spec.enumerated.push(Case::ConsumedDeNodes { tol_exp });
@@ -604,7 +664,7 @@ pub fn run(opts: &Opts) -> i32 {
     }
     spec.cases = opts.tier.pick(5_000, 100_000);
     spec.exhaustive = Some("every row of the five Gaussian tables (structure, all monomials of degree <= 2n-1, independent Golub-Welsch/closed-form rule) and every tanh-sinh pair (also as consumed by integrate: every abscissa, every weight); the nodes of every rule and the weights of every rule from the fourth on as applied by the public integrators".into());
-    spec.rule = "enumerated: every row n of WEIGHTS_LEGENDRE/HERMITE/LAGUERRE/CHEBYSHEV/CHEBYSHEV_SECOND of the working tree, expanded as the integrators consume it (x == 0.0 once, otherwise +-x): exactly n points, distinct (>1e-12), inside the domain, positive weights, every monomial of degree <= 2n-1 against the exact moment within 1e-9 sum w|p|, node/weight agreement with an independently computed rule (Golub-Welsch eigenproblem, closed-form Chebyshev) within 1e-10; random polynomials of degree <= 2n-1 in the orthonormal basis (8/64 per row enumerated + generated seeds); every tanh-sinh (w,x) against the double-exponential formula (rel 1e-12 / abs 4 eps); end-to-end integrate_* on monomials. As consumed by the public integrators: a never-converging instrumented integrand records every abscissa (rule n must be asked for exactly the n table nodes, n(n+1)/2 evaluations in total) and an integrand that is 1 at a single evaluation reads out the weight applied there for every rule from the fourth on (bit-equal to the table); the same read-out with a random signed polynomial of degree <= 2n-1 at all nodes of the rule (2/8 per row enumerated + generated seeds) must give its exact integral within 1e-9 sum w|p| - the rule as a linear functional. The tanh-sinh table as `integrate` consumes it on [-1,1]: with an integrand whose level values never settle, every abscissa of every level (centre, then +x, -x per pair) is evaluated bit-exactly and in order at tolerances 1e-12 ... 1e3; an integrand that is 1, 1e200, -3e160 or 1e-200 at a single evaluation and 0 elsewhere must give what the documented loop gives with the table weight applied to that value (1e-14 relative, same Ok/Err, same number of evaluations), for every pair and both sides. Non-trivial = rows with n >= 2, all tanh-sinh pairs. Distinct = distinct case JSON.".into();
+    spec.rule = "enumerated: every row n of WEIGHTS_LEGENDRE/HERMITE/LAGUERRE/CHEBYSHEV/CHEBYSHEV_SECOND of the working tree, expanded as the integrators consume it (x == 0.0 once, otherwise +-x): exactly n points, distinct (>1e-12), inside the domain, positive weights, every monomial of degree <= 2n-1 against the exact moment within 1e-9 sum w|p|, node/weight agreement with an independently computed rule (Golub-Welsch eigenproblem, closed-form Chebyshev) within 1e-10; random polynomials of degree <= 2n-1 in the orthonormal basis (8/64 per row enumerated + generated seeds); every tanh-sinh (w,x) against the double-exponential formula (rel 1e-12 / abs 4 eps); end-to-end integrate_* on monomials. As consumed by the public integrators: a never-converging instrumented integrand records every abscissa (rule n must be asked for exactly the n table nodes, n(n+1)/2 evaluations in total) and an integrand that is 1 at a single evaluation reads out the weight applied there for every rule from the fourth on (bit-equal to the table); the same read-out with a random signed polynomial of degree <= 2n-1 at all nodes of the rule (2/8 per row enumerated + generated seeds) must give its exact integral within 1e-9 sum w|p| - the rule as a linear functional. The Gauss-Legendre rules as consumed on intervals 1-200 ulp wide at six magnitudes (mapped nodes coincide: a constant still integrates to constant x width, n(n+1)/2 evaluations inside the interval). The tanh-sinh table as `integrate` consumes it on [-1,1]: with an integrand whose level values never settle, every abscissa of every level (centre, then +x, -x per pair) is evaluated bit-exactly and in order at tolerances 1e-12 ... 1e3; an integrand that is 1, 1e200, -3e160 or 1e-200 at a single evaluation and 0 elsewhere must give what the documented loop gives with the table weight applied to that value (1e-14 relative, same Ok/Err, same number of evaluations), for every pair and both sides. Non-trivial = rows with n >= 2, all tanh-sinh pairs. Distinct = distinct case JSON.".into();
     spec.assumptions = vec!["exact moments from Gamma-function closed forms".into(), "nalgebra SymmetricEigen accurate to ~1e-13 for the Jacobi matrices up to n = 27".into()];
     spec.max_discard_frac = 0.0;
     run_spec(spec, opts)
